@@ -65,17 +65,18 @@ const (
 )
 
 type chainCfg struct {
-	nAcc       int
-	entParams  enttypes.Params
-	wrkParams  wrktypes.Params
-	bcnParams  bcntypes.Params
-	strValFee  sdk.Dec
-	whitelist  []int
-	votingSecs int
-	vesting    map[int]int64 // account index -> original vesting amount of nund (continuous vesting)
-	dbBackend  string        // "memdb" or "goleveldb"
-	dbDir      string
-	extraCoins sdk.Coins // added to the genesis balance of account 0 (denominations outside the model; designated scenarios only)
+	nAcc                        int
+	entParams                   enttypes.Params
+	wrkParams                   wrktypes.Params
+	bcnParams                   bcntypes.Params
+	strValFee                   sdk.Dec
+	whitelist                   []int
+	votingSecs                  int
+	vesting                     map[int]int64 // account index -> original vesting amount of nund (continuous vesting)
+	dbBackend                   string        // "memdb" or "goleveldb"
+	dbDir                       string
+	startPO, startWrk, startBcn uint64    // starting ids of the genesis document when non-zero (default 1)
+	extraCoins                  sdk.Coins // added to the genesis balance of account 0 (denominations outside the model; designated scenarios only)
 }
 
 type chain struct {
@@ -210,12 +211,21 @@ func newChain(cfg chainCfg) *chain {
 	for _, w := range cfg.whitelist {
 		eg.Whitelist = append(eg.Whitelist, c.accts[w].addr.String())
 	}
+	if cfg.startPO != 0 {
+		eg.StartingPurchaseOrderId = cfg.startPO
+	}
 	gs[enttypes.ModuleName] = a.AppCodec().MustMarshalJSON(eg)
 	wg := wrktypes.DefaultGenesisState()
 	wg.Params = cfg.wrkParams
+	if cfg.startWrk != 0 {
+		wg.StartingWrkchainId = cfg.startWrk
+	}
 	gs[wrktypes.ModuleName] = a.AppCodec().MustMarshalJSON(wg)
 	bg := bcntypes.DefaultGenesisState()
 	bg.Params = cfg.bcnParams
+	if cfg.startBcn != 0 {
+		bg.StartingBeaconId = cfg.startBcn
+	}
 	gs[bcntypes.ModuleName] = a.AppCodec().MustMarshalJSON(bg)
 	sg := strtypes.DefaultGenesis()
 	sg.Params = strtypes.NewParams(cfg.strValFee)
